@@ -14,6 +14,19 @@ _DATA_FUNCS = ['field:Data._unpack_fixed_size', 'field:Data._unpack_variable_siz
                'field:Data._unpack_with_regexp_marker', 'field:Data.pack']
 
 PROPERTIES = {
+    'C08': dict(
+        level='proof',
+        functions=['structural_fields:Sequence.unpack', 'structural_fields:Sequence.pack',
+                   'structural_fields:Optional.unpack', 'structural_fields:Optional.pack',
+                   'field:Ref._unpack_referencing_a_packet', 'field:Ref._pack_referencing_a_packet',
+                   'structural_fields:normalize_raw_condition_into_a_callable',
+                   'structural_fields:normalize_count_condition_into_a_callable'],
+        trusted_base=_COMMON_TRUST + ['abstract field contract role:FIELD.unpack / role:FIELD.pack for the element field (writes only the slots it owns)',
+                                      'role contracts of user callbacks (count / when / until): pure, deterministic, do not raise PacketError'],
+        assumptions=['slot sets of distinct fields of one packet are disjoint (WFClass, assumed)',
+                     "the buffer's internal list is never a packet value",
+                     'Ref with a run-time selector (_unpack_using_callable/_pack_with_callable) and the field->expression conversion are NOT under contract in this round'],
+    ),
     'C12': dict(
         level='proof',
         functions=['packet:PacketError.__init__', 'packet:PacketError.add_parent_field_and_packet', 'packet:PacketError.__str__',
@@ -60,6 +73,14 @@ PROPERTIES = {
 }
 
 MANIFEST_TEXT = {
+    'C08': dict(
+        text='Proof for any element field (abstract field contract), any input and list length: the real bodies of Sequence.unpack/pack, Optional.unpack/pack and '
+             'Ref (packet prototype) satisfy the control clauses of the statement - max(count,0) elements; until: >= 1 element and the loop stops exactly when the '
+             'condition (evaluated after each element) is true; false when / count <= 0: empty list, nothing consumed; optional parsed iff its condition, None otherwise, '
+             'absent optional emits nothing, a present one (0 and b\'\' included) is emitted; a reference stores a fresh instance of the prototype class and parses it in place; '
+             'every element is parsed / emitted at the least aligned position; the normalisers map constant, field and callable counts to callables with the same value.',
+        note='Callbacks are role contracts (pure); ghost variables record what each callback returned in the execution. Ref with run-time selectors and the '
+             'field-to-boolean-expression conversion are not under contract (stated in the evidence); expression counts rely on C09.'),
     'C06': dict(
         text='Proof for all inputs, offsets, sizes, marker strings and search windows: each of the five real Data unpack bodies takes exactly the declared '
              'number of bytes (constant / field / callable or compiled expression) or stops at the first occurrence of the marker inside the window '
